@@ -15,7 +15,7 @@ Correspondence with the Lean model (Genshi.Heap.*):
     shipped to gdrv as a heap image and the model's coroutine is stepped along the same schedule;
     the event and the context shape after every next() are compared.
 """
-import copy, json, pickle, sys, threading
+import copy, json, os, pickle, sys, threading
 from harness import proto
 from harness.framework import Result, pmap
 from harness.proto import Atom
@@ -28,15 +28,17 @@ TRUSTED = [
     'filters/i18n.py (Translator.__call__ / extract SUB handling, i18n:domain/comment/ctxt) as a hand-written Lean heap '
     'machine; tied by footprint snapshots and step-by-step comparison on generated templates',
     'the step model covers a fragment (py:match by one element name only, no select(), no i18n:msg/choose, no inlined includes, '
-    'no <?python ?>, identity catalogue; interpolated attribute values and py:attrs are inside); outside it only the footprint '
-    'claim and the oracle on the real code are checked',
+    'no <?python ?> other than one generator function, identity catalogue; interpolated attribute values, py:attrs and lazily '
+    'evaluated nested scopes -- generator expression / map(lambda) consumed by py:for or ${...}, generator function of a code '
+    'block, lambda bound by py:with -- are inside); outside it only the footprint claim and the oracle on the real code are checked',
     'thread part: interleaving model at next() granularity (theorems) and line granularity (prepare race, settrace '
     'scheduler); byte-code level preemption, the GIL and atomicity of built-in container operations are assumed',
     'pickle, CPython generators, list iterators, dict ordering: exercised, not modelled',
-    'state outside the template object and the contexts (globals dicts of eval/exec read by nested scopes: generator '
-    'expressions, lambdas, functions of <?python ?> blocks; closure state of path tests of multi-step / positional '
-    'py:match paths): not modelled (the step model answers unmodelled / other), judged by the oracle alone '
-    '(interleaved, threaded and repeated renders against the render alone)',
+    'state outside the template object and the contexts: the globals dict eval/exec hand to nested scopes is not an object of '
+    'the model -- what lazily running code reads through it (the render\'s own Context at that next()) is, hand-written, tied '
+    'by the step comparison on interleaved renders suspended inside such scopes (counters model:lazy-suspended-*); the closure '
+    'state of path tests of multi-step / positional py:match paths is not modelled (`other` directive), judged by the oracle '
+    'alone (interleaved, threaded and repeated renders against the render alone)',
 ]
 ASSUMPTIONS = [
     'context data objects are not shared between renders (each render gets fresh objects built from the same spec)',
@@ -246,13 +248,112 @@ def _slots(obj):
     return names
 
 
+def _deep(v, depth=0, seen=None):
+    """structural value of an arbitrary object graph (wave 4: Path objects with their strategy objects, closure
+    cells of path tests, class attributes, module-level containers): containers and plain objects with the
+    identity of every mutable node, functions with their closure cells; depth-limited, cycle-safe; never calls
+    anything but getattr"""
+    import types
+    if v is None or isinstance(v, (bool, int, float, str, bytes)):
+        return repr(v)
+    if depth > 7:
+        return ('...', type(v).__name__)
+    seen = seen if seen is not None else set()
+    if isinstance(v, type):
+        return ('class', v.__module__ + '.' + v.__qualname__)
+    if isinstance(v, types.ModuleType):
+        return ('module', v.__name__)
+    if isinstance(v, tuple):
+        return ('tuple', tuple(_deep(x, depth + 1, seen) for x in v))
+    if isinstance(v, (types.GeneratorType, types.FrameType, types.CodeType)):
+        return (type(v).__name__, id(v))
+    k = id(v)
+    if k in seen:
+        return ('cycle', type(v).__name__)
+    seen = seen | {k}
+    if isinstance(v, list):
+        return ('list', k, tuple(_deep(x, depth + 1, seen) for x in v))
+    if isinstance(v, dict):
+        return ('dict', k, tuple(sorted(((repr(kk) if not isinstance(kk, str) else kk), _deep(x, depth + 1, seen))
+                                        for kk, x in v.items())))
+    if isinstance(v, (set, frozenset)):
+        return ('set', k, tuple(sorted(repr(x) for x in v)))
+    if isinstance(v, (types.FunctionType, types.MethodType, types.BuiltinFunctionType)) or \
+            (callable(v) and not hasattr(v, '__dict__') and not getattr(type(v), '__slots__', None)):
+        fn = getattr(v, '__func__', v)
+        cells = []
+        for c in getattr(fn, '__closure__', None) or ():
+            try:
+                cells.append(_deep(c.cell_contents, depth + 1, seen))
+            except ValueError:
+                cells.append('<empty cell>')
+        return ('fn', getattr(fn, '__qualname__', getattr(fn, '__name__', '?')), tuple(cells))
+    mod = getattr(type(v), '__module__', '') or ''
+    if not mod.startswith('genshi'):
+        # data objects, Context values of foreign types: by canonical value only
+        return ('v', repr(canon_val(v)))
+    out = []
+    for n in _slots(v):
+        try:
+            out.append((n, _deep(getattr(v, n), depth + 1, seen)))
+        except AttributeError:
+            out.append((n, '<unset>'))
+    return ('obj', type(v).__name__, k, tuple(out))
+
+
+def _class_state(cls):
+    """the non-callable, non-descriptor entries of a class dict (mutable state kept on a class)"""
+    import types
+    out = []
+    for n, x in sorted(vars(cls).items()):
+        if n.startswith('__') and n.endswith('__'):
+            continue
+        if isinstance(x, (types.FunctionType, classmethod, staticmethod, property, types.MemberDescriptorType,
+                          types.GetSetDescriptorType, types.WrapperDescriptorType, types.MethodDescriptorType, type)):
+            continue
+        out.append((n, _deep(x, 2)))
+    return tuple(out)
+
+
+STATE_MODULES = ('genshi.template.eval', 'genshi.template.base', 'genshi.template.markup', 'genshi.template.directives',
+                 'genshi.template.loader', 'genshi.template.interpolation', 'genshi.path', 'genshi.filters.i18n',
+                 'genshi.core', 'genshi.util')
+
+
+def snap_code_state(out):
+    """state OUTSIDE the template object graph that its code runs against (wave 4): for the genshi modules the
+    render executes, every class's own non-callable attributes and every module-level mutable container (a big
+    table by size and key digest).  A cache that a render fills or rebinds shows up here as a changed location."""
+    import types
+    for mn in STATE_MODULES:
+        m = sys.modules.get(mn)
+        if m is None:
+            continue
+        for n, x in sorted(vars(m).items()):
+            if isinstance(x, type) and getattr(x, '__module__', None) == mn:
+                st = _class_state(x)
+                if st:
+                    out[('class', mn, n)] = st
+            elif isinstance(x, (dict, list, set)) and not n.startswith('__'):
+                if len(x) > 40:
+                    out[('module', mn, n)] = (type(x).__name__, id(x), len(x),
+                                              hash(tuple(sorted(repr(k) for k in x))) if not isinstance(x, list) else len(x))
+                else:
+                    out[('module', mn, n)] = _deep(x, 3)
+    return out
+
+
 def _snap_field(v, depth=0):
     from genshi.template.eval import Code
     from genshi.path import Path
     if isinstance(v, Code):
-        return ('code', id(v), v.source)
+        g = getattr(v, '_globals', None)
+        cls = getattr(g, '__self__', None)
+        return ('code', id(v), v.source, id(v.code), _deep(cls) if cls is not None else _deep(g, 4))
     if isinstance(v, Path):
-        return ('path', id(v), v.source)
+        # the parsed steps and the strategy objects with every attribute (a strategy that caches something between
+        # calls of test() changes here)
+        return ('path', id(v), v.source, _deep(getattr(v, 'paths', None), 1), _deep(getattr(v, 'strategies', None), 1))
     if isinstance(v, (list, tuple)) and depth < 4:
         return (type(v).__name__, id(v) if isinstance(v, list) else 0, tuple(_snap_field(x, depth + 1) for x in v))
     if isinstance(v, dict) and depth < 4:
@@ -325,6 +426,8 @@ def snap_template(t, out=None, path=('tmpl',)):
                                       id(getattr(f, '__self__', f))) for f in t.filters)
     out[path + ('dict',)] = tuple(sorted(k for k in t.__dict__))
     snap_events(t._stream, out, path + ('_stream',))
+    if path == ('tmpl',):
+        snap_code_state(out)
     return out
 
 
@@ -358,6 +461,17 @@ def snap_ctx(ctxt):
         out[('frame', i)] = tuple((str(k), repr(canon_val(f[k]))) for k in f)
     out[('choice',)] = repr([canon_val(list(_choice(x))) for x in ctxt._choice_stack])
     out[('match',)] = tuple((mt[1].source, tuple(sorted(mt[3])), len(mt[2])) for mt in ctxt._match_templates)
+    # wave 4: the whole entry -- the test function with its closure cells (the per-render state of the path's
+    # strategies: stacks, position counters), the Path object, the buffered events, the directives
+    for i, mt in enumerate(ctxt._match_templates):
+        try:
+            out[('match', i, 'test')] = _deep(mt[0], 1)
+            out[('match', i, 'path')] = _snap_field(mt[1])
+            out[('match', i, 'ns')] = _deep(mt[4], 3)
+            out[('match', i, 'dirs')] = tuple((id(d), type(d).__name__) for d in mt[5])
+            snap_events(mt[2], out, ('match', i, 'body'))
+        except Exception as e:  # noqa: a changed representation must not crash the harness
+            out[('match', i)] = ('unreadable', type(e).__name__)
     return out
 
 
@@ -848,6 +962,12 @@ SYSTEMATIC = [
                      '${f(a)}<q>$a</q><p i18n:msg="a" i18n:domain="foo">Hello $a</p>'
                      '<div i18n:choose="n; n"><p i18n:singular="">One $n</p><p i18n:plural="">Many $n</p></div>' + G.TAIL,
      'files': {}, 'translator': True, 'auto_reload': True},
+    # lazily evaluated nested scopes (wave 4): a thread preempted while a generator is suspended between two items /
+    # between the definition and the call of a lambda, the other thread evaluating the same expressions meanwhile
+    {'src': G.HEAD + '<?python\ndef gen1():\n    for x in xs:\n        yield (x, a)\n?>'
+                     '<p py:with="g=lambda x: (x, a)">${g(0)}<li py:for="v in (\'%s:%s;\' % (x, a) for x in xs)">$v${g(1)}</li>'
+                     '${map(lambda x: x == a, xs)}<i py:for="w in gen1()">$w</i></p>' + G.TAIL,
+     'files': {}, 'translator': False, 'auto_reload': True},
 ]
 SYSTEMATIC_DATA = [{'a': 1, 'n': 1, 'xs': [1, 0, 2]}, {'a': 'z', 'n': 3, 'xs': ['u']}]
 
@@ -932,11 +1052,60 @@ def wire_val(v, key=None):
     return Atom('Z')
 
 
-def wire_expr(node):
-    """python ast of an expression -> wire, or None outside the modelled fragment"""
+def _fmt_pieces(fmt, n):
+    """the literal pieces of a format string that has exactly n `%s` and no other conversion"""
+    pieces = fmt.split('%s')
+    if len(pieces) != n + 1 or any('%' in p for p in pieces):
+        return None
+    return pieces
+
+
+def wire_expr(node, top=False):
+    """python ast of an expression -> wire, or None outside the modelled fragment.  `top`: the expression is the
+    iterable of py:for or a whole EXPR event -- the places where a generator object is consumed on the spot (a
+    generator expression / `map(lambda …)` anywhere else is outside the model: the object could be reached from
+    two places)"""
     import ast
     if isinstance(node, ast.Expression):
         node = node.body
+    if top and isinstance(node, ast.GeneratorExp) and len(node.generators) == 1:
+        g = node.generators[0]
+        if not g.ifs and not g.is_async and isinstance(g.target, ast.Name):
+            body, src = wire_expr(node.elt), wire_expr(g.iter)
+            if body is not None and src is not None:
+                return [Atom('gen'), body, g.target.id, src]
+        return None
+    if top and isinstance(node, ast.Call) and isinstance(node.func, ast.Name) and node.func.id == 'map' \
+            and len(node.args) == 2 and not node.keywords and isinstance(node.args[0], ast.Lambda):
+        # map() is lazy: the lambda's body runs item by item, like the body of a generator expression
+        a = node.args[0].args
+        if len(a.args) == 1 and not (a.posonlyargs or a.kwonlyargs or a.vararg or a.kwarg or a.defaults):
+            body, src = wire_expr(node.args[0].body), wire_expr(node.args[1])
+            if body is not None and src is not None:
+                return [Atom('gen'), body, a.args[0].arg, src]
+        return None
+    if isinstance(node, ast.Lambda):
+        a = node.args
+        if len(a.args) == 1 and not (a.posonlyargs or a.kwonlyargs or a.vararg or a.kwarg or a.defaults):
+            body = wire_expr(node.body)
+            if body is not None:
+                return [Atom('lam'), a.args[0].arg, body]
+        return None
+    if isinstance(node, ast.BinOp) and isinstance(node.op, ast.Mod) and isinstance(node.left, ast.Constant) \
+            and isinstance(node.left.value, str):
+        if isinstance(node.right, ast.Tuple):
+            if len(node.right.elts) != 2:
+                return None
+            ps = _fmt_pieces(node.left.value, 2)
+            a, b = wire_expr(node.right.elts[0]), wire_expr(node.right.elts[1])
+            if ps is None or a is None or b is None:
+                return None
+            return [Atom('fmt2'), ps[0], a, ps[1], b, ps[2]]
+        ps = _fmt_pieces(node.left.value, 1)
+        a = wire_expr(node.right)
+        if ps is None or a is None:
+            return None
+        return [Atom('fmt1'), ps[0], a, ps[1]]
     if isinstance(node, ast.Name):
         return [Atom('v'), node.id]
     if isinstance(node, ast.Constant) and (node.value is None or isinstance(node.value, (bool, int, str))):
@@ -956,6 +1125,28 @@ def wire_expr(node):
         a = wire_expr(node.args[0])
         return None if a is None else [Atom('call'), node.func.id, a]
     return None
+
+
+def wire_suite(node):
+    """the suite of an EXEC event -> wire, for the one shape the model has: a module that is one generator function
+    `def name():` / `for x in src:` / `yield body` (no arguments, no decorators); None otherwise"""
+    import ast
+    if not (isinstance(node, ast.Module) and len(node.body) == 1 and isinstance(node.body[0], ast.FunctionDef)):
+        return None
+    f = node.body[0]
+    a = f.args
+    if f.decorator_list or a.args or a.posonlyargs or a.kwonlyargs or a.vararg or a.kwarg or len(f.body) != 1:
+        return None
+    loop = f.body[0]
+    if not (isinstance(loop, ast.For) and isinstance(loop.target, ast.Name) and not loop.orelse and len(loop.body) == 1):
+        return None
+    y = loop.body[0]
+    if not (isinstance(y, ast.Expr) and isinstance(y.value, ast.Yield) and y.value.value is not None):
+        return None
+    src, body = wire_expr(loop.iter), wire_expr(y.value.value)
+    if src is None or body is None:
+        return None
+    return [Atom('G'), f.name, loop.target.id, src, body]
 
 
 def wire_attrs_spec(node):
@@ -1017,7 +1208,7 @@ def wire_dir(d, num):
             var = _assign_name(d.assign)
             body = d.expr.ast.body
             if var and isinstance(body, ast.Call) and getattr(body.func, 'id', None) == 'iter' and len(body.args) == 1:
-                e = wire_expr(body.args[0])
+                e = wire_expr(body.args[0], top=True)
                 if e:
                     return [num, Atom('for'), var, e]
             return other
@@ -1137,7 +1328,7 @@ class Image(object):
                 ba = self.add_evs(sub)
                 out.append([Atom('S'), [Atom('t'), da], [Atom('t'), ba]])
             elif kind is EXPR:
-                e = wire_expr(data.ast)
+                e = wire_expr(data.ast, top=True)
                 out.append([Atom('X'), e] if e else Atom('U'))
             elif kind is INCLUDE:
                 href, cls, fb = data
@@ -1148,7 +1339,7 @@ class Image(object):
                 else:
                     out.append(Atom('U'))
             elif kind is EXEC:
-                out.append(Atom('U'))
+                out.append(wire_suite(data.ast) or Atom('U'))
             elif kind is START:
                 if all(isinstance(v, str) for _, v in data[1]):
                     out.append([Atom('O'), evwire.ev(ev)])
@@ -1221,11 +1412,11 @@ def wire_actions(case):
     return out
 
 
-def model_request(case, variant, im=None):
+def model_request(case, variant, im=None, verb='run'):
     """the request line for gdrv; the heap image comes from a twin loader that prepared everything"""
     im = im or twin_image(case['tmpl'])
     names = template_names(case['tmpl'])
-    return proto.line(Atom('C10'), Atom('run'), proto.B(variant[0]), proto.B(variant[1]),
+    return proto.line(Atom('C10'), Atom(verb), proto.B(variant[0]), proto.B(variant[1]),
                       proto.B(bool(case['tmpl'].get('translator'))), FUEL, [im.roots[n] for n in names],
                       im.cell_list(), wire_actions(case))
 
@@ -1389,6 +1580,23 @@ def compare_model(cases, res, variant, stream='steps'):
     twins = [twin_image(c['tmpl']) for c in cases]
     lines = [model_request(c, variant, im) for c, im in zip(cases, twins)]
     answers = proto.run_lines(lines)
+    # distribution only: in how many steps of the cases with a lazily evaluated scope is the stepped render left
+    # suspended INSIDE the scope (generator object with items left) -- the window in which another render's
+    # evaluations come between two runs of one body.  Model-side measurement (verb `runlazy`).
+    lz = [(c, im) for c, im in zip(cases, twins) if c.get('lazy')]
+    if lz:
+        for (c, im), ans in zip(lz, proto.run_lines([model_request(c, variant, im, 'runlazy') for c, im in lz])):
+            if ans in ('bad-op', 'bad-line'):
+                res.disagreements.append({'stream': stream, 'case': c, 'model': ans, 'real': 'runlazy request not understood'})
+                continue
+            flags = proto.dec(ans)
+            n = sum(1 for f in flags if f in (True, 'T'))
+            owners = set(a[1] for a, f in zip(c['actions'], flags) if f in (True, 'T'))
+            res.count('model:lazy-suspended-steps', n)
+            if n:
+                res.count('model:lazy-suspended-cases')
+            if len(owners) >= 2:
+                res.count('model:lazy-suspended-in-2+-renders')
     for c, ans, im in zip(cases, answers, twins):
         if ans in ('bad-op', 'bad-line'):
             res.disagreements.append({'stream': stream, 'case': c, 'model': ans, 'real': 'request not understood'})
@@ -1412,6 +1620,8 @@ def compare_model(cases, res, variant, stream='steps'):
                 res.count('model:unmodelled')
                 for ft in c.get('lazy') or ():
                     res.count('model:unmodelled:' + ft)
+                if os.environ.get('C10_DEBUG_UNMODELLED') and c.get('lazy'):
+                    sys.stderr.write('UNMODELLED %s at %d: %s\n' % (c['lazy'], n, c['tmpl']['src']))
                 break
             res.streams[stream] = res.streams.get(stream, 0) + 1
             if act[0] == 's' and isinstance(m, list) and len(m) > 2 and isinstance(m[2], list) and m[2] and m[2][0] == 'err':
@@ -1428,16 +1638,20 @@ def compare_model(cases, res, variant, stream='steps'):
                 break
             if act[0] == 's':
                 res.count('model:step-ok')
+        else:
+            # the whole case stayed inside the model and agreed: say so per lazily evaluated construct
+            for ft in c.get('lazy') or ():
+                res.count('model:covered:' + ft)
 
 
 def gen_model_case(rng):
     # now and then a lazily evaluated nested scope (generator expression, lambda under map(), generator function
     # of a code block): the step model has no counterpart and must say so (`unmodelled`, counted), the oracle
     # judges these cases
-    lazy = rng.random() < 0.05
+    lazy = rng.random() < 0.15
     t = G.rand_template(rng, modelled=True, focus='lazy' if lazy else None)
     tspec = {'src': t['src'], 'files': t['files'], 'translator': t['translator'], 'auto_reload': True}
-    k = rng.choice([1, 2, 2, 3])
+    k = rng.choice([1, 2, 2, 3]) if not lazy else rng.choice([2, 2, 3])
     datas = [G.healthy_data(rng) if lazy else G.rand_data(rng, True, fail_bias=0.15 if rng.random() < 0.3 else 0.0)
              for _ in range(k)]
     acts = []
@@ -1446,12 +1660,16 @@ def gen_model_case(rng):
         acts.append([rng.choice(['a', 'x', 'p', 'r'])])
     for i in range(k):
         acts.append(['o', i])
-    for i in G.rand_schedule(rng, k, rng.choice([10, 25, 50, 90])):
+    # with a lazily evaluated scope in focus: long enough to get into it, half of the schedules in lock step (each
+    # render is suspended inside its generator while the others run the same body with their data)
+    sched = G.rand_schedule(rng, k, rng.choice([50, 90]), lockstep=0.5) if lazy else \
+        G.rand_schedule(rng, k, rng.choice([10, 25, 50, 90]))
+    for i in sched:
         acts.append(['s', i])
         if rng.random() < 0.06:
             acts.append([rng.choice(['x', 'a', 'p', 'r'])])
     case = {'kind': 'model', 'tmpl': tspec, 'data': datas, 'actions': acts}
-    if lazy:
+    if lazy or any(f in G.LAZY_FEATURES for f in t['features']):
         case['lazy'] = [f for f in t['features'] if f in G.LAZY_FEATURES]
     return case, t['features']
 
